@@ -57,6 +57,48 @@ fn one(cmd: &str, args: &[String]) -> Result<i32, String> {
         "fmt-diff" => conv(commands::format_files(&a1, false, true)),
         "fmt-check" => conv(commands::format_files(&a1, true, false)),
         "test" => conv(incan::cli::test_runner::run_tests(&a1, true, false, false, None, false, false)),
+        "emit-many" => {
+            // differential probe: generate the same program N times in THIS process (every HashMap
+            // instance gets its own hash keys) and compare the generated Rust
+            let n: usize = args.get(1).and_then(|s| s.parse().ok()).unwrap_or(16);
+            match commands::collect_modules(&a1) {
+                Err(e) => {
+                    eprintln!("{}", e.message);
+                    1
+                }
+                Ok(modules) => {
+                    let Some(main_module) = modules.last() else { return 1 };
+                    let mut outs: Vec<String> = vec![];
+                    for _ in 0..n {
+                        let mut codegen = incan::backend::IrCodegen::new();
+                        for module in &modules[..modules.len() - 1] {
+                            codegen.add_module(&module.name, &module.ast);
+                        }
+                        outs.push(match codegen.try_generate(&main_module.ast) {
+                            Ok(code) => code,
+                            Err(e) => format!("// error: {}", e),
+                        });
+                    }
+                    let mut distinct: Vec<&String> = vec![];
+                    for o in &outs {
+                        if !distinct.contains(&o) {
+                            distinct.push(o);
+                        }
+                    }
+                    println!("generations: {} distinct outputs: {}", n, distinct.len());
+                    if distinct.len() > 1 {
+                        let (a, b) = (distinct[0], distinct[1]);
+                        for (la, lb) in a.lines().zip(b.lines()) {
+                            if la != lb {
+                                println!("first difference:\n< {}\n> {}", la, lb);
+                                break;
+                            }
+                        }
+                    }
+                    0
+                }
+            }
+        }
         "collector" => {
             let p = Path::new(&a1);
             let mut c = incan::frontend::module::ModuleCollector::new(p);
